@@ -109,6 +109,11 @@ func (e *Engine) preamble(body string) string {
 		}
 	}
 	b.WriteString(sortDecls(roots))
+	for _, s := range sortClosure(roots) {
+		if s.Kind == KSlice {
+			fmt.Fprintf(&b, "(assert (forall ((s %s)) (! (>= (%s_len s) 0) :pattern ((%s_len s)))))\n", s.Name, s.Name, s.Name)
+		}
+	}
 	var ax strings.Builder
 	for _, a := range axioms {
 		for _, t := range a.trigger {
